@@ -1,8 +1,11 @@
 package main
 
 import (
+	"bytes"
 	"encoding/json"
 	"fmt"
+	"os"
+	"os/exec"
 	"path/filepath"
 	"strings"
 	"time"
@@ -64,6 +67,9 @@ type C04Case struct {
 	// the failing schedule
 	Trace  []simrt.Seg `json:"schedule,omitempty"`
 	Policy string      `json:"policy,omitempty"`
+	Prefix *C02Prefix  `json:"process_history,omitempty"` // earlier cases of the shard process (for violations that need process-level history)
+	ChildI int         `json:"child_task,omitempty"`
+	ChildJ int         `json:"child_op,omitempty"`
 }
 
 func genC04(r *Rng, tier string) *C04Case {
@@ -114,6 +120,12 @@ func genC04(r *Rng, tier string) *C04Case {
 			t = g.Sibling(cs.Trees[r.Intn(i)], cs.Envs[0])
 		}
 		cs.Trees = append(cs.Trees, t)
+	}
+	if r.Chance(0.12) {
+		// a template that is rejected by the block parser (a clause or end tag out of place):
+		// error paths build their messages lazily too
+		bad := pick(r, []string{"else", "when 1", "elsif x", "endfor", "endcase", "endif", "else"})
+		cs.Trees[0] = append([]*TNode{{K: "text", S: "a"}, {K: "tag", S: bad}}, cs.Trees[0]...)
 	}
 	for _, t := range cs.Trees {
 		cs.Sources = append(cs.Sources, Source(t))
@@ -433,6 +445,41 @@ func replayChooser(trace []simrt.Seg) simrt.Chooser {
 	}
 }
 
+// c04AloneChild (mode c04alone): a pristine child process executes ONE operation of
+// the case given on stdin, alone, and prints its result tuple.
+func c04AloneChild() {
+	simrt.SimPools, simrt.SingleThreaded = true, true
+	var in struct {
+		Case C04Case
+		I, J int
+	}
+	if err := json.NewDecoder(os.Stdin).Decode(&in); err != nil {
+		fatal("c04alone: %v", err)
+	}
+	w, r := c04Build(&in.Case)
+	if w == nil {
+		fmt.Print(r.Key())
+		return
+	}
+	noScribble = true
+	c03Pin()
+	fmt.Print(w.exec(in.Case.Tasks[in.I][in.J]).Key())
+}
+
+func c04Child(cs *C04Case, i, j int) (string, bool) {
+	cmd := exec.Command(os.Args[0], "c04alone", "-scratch", scratchRoot)
+	cmd.Env = append(os.Environ(), "TZ=UTC")
+	in, _ := json.Marshal(map[string]any{"Case": cs, "I": i, "J": j})
+	cmd.Stdin = bytes.NewReader(in)
+	var so bytes.Buffer
+	cmd.Stdout = &so
+	cmd.Stderr = os.Stderr
+	if err := cmd.Run(); err != nil {
+		return "", false
+	}
+	return so.String(), true
+}
+
 type c04Fail struct {
 	clause, detail, sig string
 	trace               []simrt.Seg
@@ -638,6 +685,32 @@ func (ck c04) RunCase(c *Ctx, idx int) *CaseOut {
 	var total int64
 	for _, s := range alone.steps {
 		total += s
+	}
+	// "What it returns when run alone" ultimately means alone in a process where nothing
+	// else has run: one operation of the cold schedule is also compared with its result in
+	// a pristine child process (first-one-wins state at package level pollutes an
+	// in-process baseline in the same way as the concurrent run).
+	if alone != nil && !cold.rr.Deadlock && len(cold.rr.Overrun) == 0 {
+		ci := r.Intn(len(cs.Tasks))
+		cj := r.Intn(len(cs.Tasks[ci]))
+		if cj < len(cold.results[ci]) && alone.res[ci][cj].Panic == "" && cs.Tasks[ci][cj].Kind != "other-engine" {
+			if key, ok := c04Child(cs, ci, cj); ok {
+				out.Evals++
+				c.count("fault:fresh-process-reference", 1)
+				if got := cold.results[ci][cj]; key != got.Key() && got.Key() == alone.res[ci][cj].Key() {
+					f := c04Fail{clause: "equals-alone", sig: "equals-alone|process", trace: cold.rr.Trace, policy: "cold:" + cold.pol.name,
+						detail: fmt.Sprintf("task %d operation %d returned %s (concurrently and in-process alone); alone in a pristine process it returns %s: the result depends on what ran earlier in the process", ci+1, cj, clip(got.Key()), clip(key))}
+					orig := *cs
+					orig.Trace, orig.Policy = f.trace, f.policy
+					if c.Shards > 0 {
+						orig.Prefix = &C02Prefix{Index: idx, Shards: c.Shards, Tier: c.Tier}
+					}
+					orig.ChildI, orig.ChildJ = ci, cj
+					ob, _ := json.Marshal(orig)
+					out.Violations = append(out.Violations, &Violation{Property: "C04", Clause: f.clause, Detail: f.detail, Signature: f.sig, Seed: c.Seed, Index: idx, Case: ob})
+				}
+			}
+		}
 	}
 	c.logf("alone steps %v", alone.steps)
 	u := map[string]bool{}
@@ -866,6 +939,22 @@ func (ck c04) Replay(c *Ctx, v *Violation) *Violation {
 	var cs C04Case
 	if err := json.Unmarshal(v.Case, &cs); err != nil {
 		fatal("replay: %v", err)
+	}
+	if v.Signature == "equals-alone|process" {
+		if cs.Prefix != nil {
+			c.Tier = cs.Prefix.Tier
+			for i := cs.Prefix.Index % cs.Prefix.Shards; i < cs.Prefix.Index; i += cs.Prefix.Shards {
+				simrt.ResetPools()
+				ck.RunCase(c, i)
+			}
+		}
+		run := c04Exec(&cs, nil, policy{"replay", replayChooser(cs.Trace)})
+		key, ok := c04Child(&cs, cs.ChildI, cs.ChildJ)
+		if ok && cs.ChildJ < len(run.results[cs.ChildI]) && run.results[cs.ChildI][cs.ChildJ].Key() != key {
+			return &Violation{Property: "C04", Clause: v.Clause, Signature: v.Signature,
+				Detail: fmt.Sprintf("task %d operation %d returns %s after this process's earlier activity; alone in a pristine process it returns %s", cs.ChildI+1, cs.ChildJ, clip(run.results[cs.ChildI][cs.ChildJ].Key()), clip(key))}
+		}
+		return nil
 	}
 	if w, r0 := c04Build(&cs); w == nil {
 		fmt.Printf("replay: setup failed: %s\n", r0.Key())
